@@ -9,15 +9,22 @@ Fills == {"none", "null", "num"}
 Tols == {0, 2}
 MCConfigs2 == { JCfg(2, f, t) : f \in Fills, t \in Tols }
 MCConfigs3 == { JCfg(3, f, t) : f \in Fills, t \in Tols }
+MCConfigs3q == { JCfg(3, f, 0) : f \in {"none", "null"} }
 MCInputs2x3 == InputsOf(2, T3, G1, 3)
 MCInputs2x2g == InputsOf(2, T3, G2, 2)
 MCInputs3x2 == InputsOf(3, T3, G1, 2)
 MCInputs3x3 == InputsOf(3, T3, G1, 3)
+\* one run for both arities: JInit keeps the pairs with Len(parents) = cfg.n
+MCConfigsQuick == MCConfigs2 \cup MCConfigs3q
+MCInputsQuick == MCInputs2x3 \cup MCInputs3x2
+MCConfigsThorough == MCConfigs2 \cup MCConfigs3
+MCInputsThorough == MCInputs2x3 \cup MCInputs3x3 \cup MCInputs2x2g
 
 \* join.on('b'): parent 1 grouped by b (groups x, y), parent 2 by b,f (x1, x2, y1)
 OnOf == [x |-> "x", y |-> "y", x1 |-> "x", x2 |-> "x", y1 |-> "y"]
 OCfg(fill, tol) == [kind |-> "join", edge |-> "stream", n |-> 2, fill |-> fill, tol |-> tol, on |-> TRUE, onof |-> OnOf]
 MCConfigsOn == { OCfg(f, t) : f \in Fills, t \in Tols }
+MCConfigsOnQ == { OCfg(f, t) : f \in {"none", "null"}, t \in Tols }
 MCInputsOn(k) == { <<a, b>> : a \in ParentSeqs(1, T3, {"x", "y"}, k), b \in ParentSeqs(2, T3, {"x1", "x2", "y1"}, k) }
 MCInputsOn2 == MCInputsOn(2)
 MCInputsOn3 == MCInputsOn(3)
